@@ -502,7 +502,17 @@ ssize_t comp_read(zckCtx *zck, char *dst, size_t dst_size, bool use_dict) {
             }
         }
         if(zck->comp.data_loc == zck->comp.data_idx->comp_length) {
-            if(!comp_end_dchunk(zck, use_dict, zck->comp.data_idx->length)) {
+            size_t number = zck->comp.data_idx->number;
+            if(comp_end_dchunk(zck, use_dict, zck->comp.data_idx->length) < 1) {
+                /* Never hand out anything that was decompressed from a
+                 * chunk that failed verification */
+                free(zck->comp.dc_data);
+                zck->comp.dc_data = NULL;
+                zck->comp.dc_data_size = 0;
+                zck->comp.dc_data_loc = 0;
+                if(zck->error_state < 2)
+                    set_error(zck, "Chunk %llu failed verification",
+                              (long long unsigned) number);
                 free(src);
                 return -1;
             }
